@@ -245,6 +245,18 @@ func (tt *TermTable) Ite(c, a, b *Term) *Term {
 		if a.IsFalse() && b.IsTrue() {
 			return tt.Not(c)
 		}
+		if b.IsFalse() {
+			return tt.And(c, a)
+		}
+		if a.IsTrue() {
+			return tt.Or(c, b)
+		}
+		if a.IsFalse() {
+			return tt.And(tt.Not(c), b)
+		}
+		if b.IsTrue() {
+			return tt.Or(tt.Not(c), a)
+		}
 	}
 	return tt.mk(OpIte, a.W, 0, "", c, a, b)
 }
